@@ -3,6 +3,9 @@
 #define PPLX_HH
 #include "hx.hh"
 #include "pplconv.hh"
+#ifdef BUGSENG_PPL_VERIF
+#include "verif_hooks.hh"
+#endif
 #include "defs.hh"
 #include <iostream>
 #include <algorithm>
@@ -79,6 +82,16 @@ inline void note_weight(const char* name, unsigned long long w) {
   std::map<std::string, unsigned long>& c = hx::st().counters; std::string k = std::string("max_weight.") + name;
   if (c[k] < w) c[k] = w;
 }
+
+// ---------- reach counters from the guarded hooks in /repo (evidence that the anchored mechanisms ran) ----------
+#ifdef BUGSENG_PPL_VERIF
+inline void dump_reach() {
+  namespace V = Parma_Polyhedra_Library::Implementation::Verif;
+  for (int i = 0; i < V::PPL_VR_COUNT; ++i) if (V::reach[i]) hx::count(std::string("reach.") + V::reach_names[i], V::reach[i]);
+}
+inline bool register_reach_dump() { static bool done = false; if (!done) { done = true; hx::exit_hooks().push_back(&dump_reach); } return true; }
+static const bool reach_dump_registered = register_reach_dump();
+#endif
 
 } // namespace pplx
 #endif
